@@ -261,6 +261,51 @@ def h_history(E, length):
     return 'ok'
 
 
+GRADED = ['sin(f)+f', 'f(x)', 'x+y', 'sin(x)+0*cos(x)', '2k+k', 'f(x)+sin(x\t)', '[x,f(y)]', 'f(x']
+
+
+def h_graded_history(E, length):
+    """histories that contain full grader calls (evaluation + every post-evaluation validator) on the shared parser: the names reported for a string
+    afterwards are those a fresh parser reports, and an evaluation in a scope lacking its functions still raises UndefinedFunction"""
+    import mitxgraders.helpers.calc.expressions as X
+    from mitxgraders import FormulaGrader, MatrixGrader, NumericalGrader
+    from mitxgraders.exceptions import MITxError
+    from mitxgraders.helpers.calc.exceptions import UndefinedFunction, CalcError
+    X.PARSER.cache = {}
+    seen = []
+    for step in range(length):
+        s = E.choice('s%d' % step, GRADED)
+        kind = E.choice('grader%d' % step, ['formula', 'matrix', 'formula-required', 'formula-whitelist'])
+        kw = dict(answers=s, variables=['x', 'y'], user_functions={'f': lambda t: t + 1}, metric_suffixes=True, samples=2)
+        if kind == 'formula-required':
+            kw['required_functions'] = ['f']
+        if kind == 'formula-whitelist':
+            kw['whitelist'] = ['sin', 'cos']
+        cls = MatrixGrader if kind == 'matrix' else FormulaGrader
+        try:
+            g = cls(max_array_dim=1, **kw) if kind == 'matrix' else cls(**kw)
+            r = g(None, s)
+            verdict = str(r['ok'])
+        except MITxError as e:
+            verdict = type(e).__name__
+        E.note('verdict%d' % step, verdict)
+        seen.append(s)
+        for t in seen:
+            got = _outcome(X.parse, t)
+            want = _outcome(X.MathParser().parse, t)
+            E.check('names-after-grading-are-those-of-a-fresh-parser', got == want)
+            if want[0] == 'ok' and want[3]:
+                try:
+                    X.evaluator(t, {'x': 1.0, 'y': 2.0, 'f': 3.0}, {}, {'k': 1000.0})
+                    E.check('missing-function-still-reported-after-grading', False)
+                except UndefinedFunction:
+                    E.check('missing-function-still-reported-after-grading', True)
+                except CalcError:
+                    pass
+        E.check('scratch-sets-empty-after-every-call', not X.PARSER.variables_used and not X.PARSER.functions_used and not X.PARSER.suffixes_used)
+    return 'ok'
+
+
 def selftest():
     from symx import text
     text.selftest(rounds=25)
@@ -275,5 +320,6 @@ def harnesses(tier):
         hs.append(Harness(pname(base, **params), fn, tuple(params.values()), FUNCS, bounds, STUBS, **kw))
     add(h_names, 'names', dict(N=5 if T else 4), 'all Unicode strings up to that length', max_paths=400000 if T else None, validate=True)
     add(h_inductive, 'inductive_step', {}, 'arbitrary cache subset x 7 inputs x <=2 fired actions over 5 names x 3 grammar outcomes', validate=False)
+    add(h_graded_history, 'graded_history', dict(length=3 if T else 2), 'all sequences of grader calls (4 grader configurations x 8 strings) on the shared PARSER', validate=False)
     add(h_history, 'history', dict(length=4 if T else 3), 'all sequences over 17 strings (incl. tab / newline / no-break-space twins) on the shared PARSER', validate=False)
     return hs
